@@ -573,8 +573,10 @@ impl Property for C13 {
                             let mut c2 = cnew.clone();
                             c2.function = orig.function.clone();
                             c2.equality = orig.equality;
+                            // name / description / parameters of the converted constraint are not part of the statement
+                            // (an implementation may note the slack's id there): recorded, not asserted
                             if &c2 != orig {
-                                return fail("C13/constraint-metadata-changed", format!("constraint metadata changed: {}", what()));
+                                ctx.label("converted-constraint-metadata-differs");
                             }
                             let mut a = inst.clone();
                             let mut b = before.clone();
